@@ -14,7 +14,10 @@
          if limit.value != limit.sent: buf = builder.start_frame(...); ...; limit.sent = limit.value
      _write_stream_limits, per stream: the same shape with max_stream_data_local / _sent
    (RAISE_BEFORE_START_FRAME, probed from the tree under test by tools/gen/c07_consts.py: true for this shape, false when
-   the value is assigned only after start_frame() returned)
+   the value is assigned only after start_frame() returned:
+         value = limit.value; if limit.used * 2 > value: value *= 2
+         if value != limit.sent: buf = builder.start_frame(...); limit.value = value; ...; limit.sent = limit.value
+   -- there limit.value is assigned ONLY next to a written frame, also when value == limit.sent)
    so a refused MAX_* frame leaves the raised value in force (it is the value every check reads) while nothing was
    advertised; .sent is only assigned after start_frame returned, i.e. when the frame is in the packet.
 
@@ -37,7 +40,8 @@ Definition raise_limit_b (ft : Z) (l : limit) (b : Z) : limit * list wire * opti
     if b <=? 0 then ((if RAISE_BEFORE_START_FRAME then mkLimit v (l_used l) (l_sent l) else l), [], None)
                                                    (* start_frame raises; flag true: value already raised, nothing written *)
     else (mkLimit v (l_used l) v, [W ft 0 v], Some (b - 1))
-  else (mkLimit v (l_used l) (l_sent l), [], Some b).
+  else ((if RAISE_BEFORE_START_FRAME then mkLimit v (l_used l) (l_sent l) else l), [], Some b).
+                                                   (* nothing to write; flag false: limit.value is assigned only next to a written frame *)
 
 (* "for stream in self._streams.values(): self._write_stream_limits(...)" *)
 Fixpoint raise_streams_b (l : list (Z * strm)) (b : Z) : list (Z * strm) * list wire * option Z :=
@@ -50,7 +54,7 @@ Fixpoint raise_streams_b (l : list (Z * strm)) (b : Z) : list (Z * strm) * list 
         else let '(t', w', r) := raise_streams_b t (b - 1) in
              ((sid, mkStrm v v (sm_sendfin s) (sm_recv s)) :: t', W FT_MAX_STREAM_DATA sid v :: w', r)
       else let '(t', w', r) := raise_streams_b t b in
-           ((sid, mkStrm v (sm_sent s) (sm_sendfin s) (sm_recv s)) :: t', w', r)
+           ((sid, if RAISE_BEFORE_START_FRAME then mkStrm v (sm_sent s) (sm_sendfin s) (sm_recv s) else s) :: t', w', r)
   end.
 
 Definition set_retire (c : conn) (r : list Z) : conn :=
@@ -166,6 +170,52 @@ Fixpoint tolerated (c : conn) (p : peer) (ops : list xop) : bool :=
           end
       end
   end.
+
+(* ---------- the converse direction, stated for the first frame that leaves the advertised limits ----------
+   answered: the connection closes with FLOW_CONTROL_ERROR or STREAM_LIMIT_ERROR.
+   judged: the endpoint gets as far as the limit checks -- the frame is well formed, the peer may send on the stream, the
+   stream's state was not discarded (such frames are ignored, RFC 9000 section 3.2) and the stream exists or is the peer's to open.
+   A frame that is not judged may only be ignored or refused with FRAME_ENCODING_ERROR / STREAM_STATE_ERROR -- never accepted. *)
+Definition answered (r : outcome) : bool :=
+  match r with OErr code _ => (code =? E_FLOW_CONTROL_ERROR) || (code =? E_STREAM_LIMIT_ERROR) | _ => false end.
+Definition judged (c : conn) (sid e : Z) : bool :=
+  (e <=? UINT_VAR_MAX) && can_receive c sid && negb (existsb (Z.eqb sid) (c_done c)) &&
+  (negb (Bool.eqb (client_initiated sid) (c_client c)) || match sget sid (c_streams c) with Some _ => true | None => false end).
+Definition over_ok (c : conn) (sid e : Z) (r : outcome) : bool :=
+  answered r ||
+  (negb (judged c sid e) &&
+   match r with
+   | OIgnored => true
+   | OErr code _ => (code =? E_FRAME_ENCODING_ERROR) || (code =? E_STREAM_STATE_ERROR)
+   | _ => false
+   end).
+
+(* true iff, after a prefix in which every STREAM / RESET_STREAM frame was within every limit written on the wire so far and
+   final-size consistent (peer_within), the first frame BEYOND a limit written on the wire is not answered as over_ok demands.
+   (A frame that is within the limits but not final-size consistent ends the judgement: over_limit_closes_* cover it.) *)
+Fixpoint xunanswered (c : conn) (p : peer) (ops : list xop) : bool :=
+  match ops with
+  | [] => false
+  | o :: t =>
+      let '(r, c') := xstep c o in
+      match xframe_end o with
+      | Some (sid, e, fin) =>
+          if peer_within (c_client c) p (p_adv_msd p sid) sid e fin then
+            if closes r then false else xunanswered c' (peer_upd p sid e fin) t
+          else if within_wire_limits (c_client c) p sid e then false
+          else negb (over_ok c sid e r)
+      | None =>
+          match r with
+          | OWrote w => xunanswered c' (peer_see p w) t
+          | OErr _ _ | OExn => false
+          | _ => xunanswered c' p t
+          end
+      end
+  end.
+
+(* the peer's ledger of advertisements after a run: the transport parameters, then every MAX_* frame of every pass *)
+Definition see_outcome (p : peer) (r : outcome) : peer := match r with OWrote w => peer_see p w | _ => p end.
+Definition adv_ledger (p : peer) (os : list outcome) : peer := fold_left see_outcome os p.
 
 (* ---------- executable interface: ConnLimits.v's tokens plus
          12 b n k1..kn        WriteCut b [k1..kn]        output: 2 n (ft a b)*  like Write *)
